@@ -37,6 +37,16 @@ def genInterCase : G String := do
     genPic cfg (if disp ∧ cfg.flavour < 2 then 2 else 1) dims (tr + k + 1)
   pure (s!"P {optsOf cfg false} d:{hexOf i}" ++ String.join (ps.map fun p => s!";d:{hexOf p}"))
 
+/-- pictures of the sizes video actually uses (QCIF, CIF, 320x240): an intra picture followed by a predicted one -/
+def genRealSizeCase : G String := do
+  let cfg ← genCfg
+  let dims ← pick [(176, 144), (352, 288), (320, 240), (160, 120), (128, 96)]
+  let dims := if cfg.flavour = 2 then (128, 96) else dims
+  let tr ← below 256
+  let i ← genPic cfg 0 dims tr true
+  let p ← genPic cfg 1 dims (tr + 1) true
+  pure s!"P {optsOf cfg false} d:{hexOf i};d:{hexOf p}"
+
 /-- histories over {I, P, disposable P, rejected picture, clean-up} with colliding temporal references, small pictures -/
 def genHistCase : G String := do
   let cfg : Cfg := { flavour := (← pick [0, 1, 1]) }
@@ -264,6 +274,7 @@ def runGen (kind : String) (seed count : Nat) : List String :=
       match kind with
       | "intra" => out := (← genIntraCase) :: out
       | "inter" => out := (← genInterCase) :: out
+      | "realsize" => out := (← genRealSizeCase) :: out
       | "hist" => out := (← genHistCase) :: out
       | "concat" => out := (← genConcatCase).reverse ++ out
       | _ => pure ()
